@@ -1086,6 +1086,8 @@ class Exec:
   def subscript(self, recv, sl, env, node):
     recv = self.need_not_none(recv, node, 'subscripted value') if isinstance(
         recv, (VOpt, VNone)) else recv
+    if hasattr(recv, 'py_getitem_ast'):
+      return recv.py_getitem_ast(self, sl, env, node)
     if isinstance(sl, ast.Slice):
       lo = self.eval(sl.lower, env) if sl.lower is not None else NONE
       hi = self.eval(sl.upper, env) if sl.upper is not None else NONE
@@ -1646,6 +1648,11 @@ class Exec:
       env.assign(t.id, v)
     elif isinstance(t, ast.Attribute):
       recv = self.eval(t.value, env)
+      if hasattr(recv, 'py_setattr'):
+        # pandas object treated as a value: the store yields a new value
+        self.assign_target(t.value, recv.py_setattr(self, t.attr, v, node),
+                           env, node)
+        return
       self.set_attr(recv, t.attr, v, node)
     elif isinstance(t, (ast.Tuple, ast.List)):
       self.unpack(t, v, env, node)
@@ -2017,6 +2024,9 @@ def elem_term(v, esort):
     v = v.val
   if isinstance(v, (VInt, VBool)) and esort == z3.IntSort():
     return num_term(v)
+  if isinstance(v, VStr) and esort == z3.IntSort():
+    from mmverif.engine import frame_ledger
+    return frame_ledger.colcode(v.s)     # constant names: injective codes
   if isinstance(v, (VInt, VBool)) and esort == KeySort:
     return z3.Function('key_int', z3.IntSort(), KeySort)(num_term(v))
   if isinstance(v, VOpaque) and v.t.sort() == esort:
@@ -2042,7 +2052,7 @@ def term_value(t, esort):
 
 def set_from_items(items):
   first = items[0]
-  if isinstance(first, (VInt, VBool)):
+  if isinstance(first, (VInt, VBool, VStr)):
     es = z3.IntSort()
   elif isinstance(first, VOpaque):
     es = first.t.sort()
